@@ -1729,6 +1729,10 @@ def rand_type(rng, pool, depth=0):
     return rand_type(rng, pool, depth + 1) + " (" + ", ".join(rand_type(rng, pool, depth + 1) for _ in range(rng.randint(0, 3))) + ")"
 
 
+CXX_FUNDAMENTAL_TOKENS = {"void", "bool", "char", "int", "float", "double", "short", "long", "signed", "unsigned", "const", "volatile",
+                          "wchar_t", "char8_t", "char16_t", "char32_t", "__int128", "class", "struct", "enum"}
+
+
 def check_C19(ck):
     rng = random.Random(repr((ck.seed, "C19")))
     scripts = load_corpus("C19")
@@ -1782,6 +1786,12 @@ def check_C19(ck):
                     return (name, [l], {"kind": "failing input: the forward declarations are not balanced, well-formed C++", "implementation": text})
                 if len(set(decl)) != len(decl):
                     return (name, [l], {"kind": "failing input: a class is declared more than once", "implementation": text})
+                # the language's own type and specifier tokens can never be forward-declared classes (an independent
+                # list: the generator's keyword table is re-extracted from the source and is not trusted here)
+                builtin = [d_ for d_ in decl if d_ in CXX_FUNDAMENTAL_TOKENS]
+                if builtin and l.startswith("fwd-type "):
+                    return (name, [l], {"kind": "failing input: a fundamental type or specifier is forward-declared as a class",
+                                        "declared": builtin, "implementation": text})
                 if l.startswith("fwd-names "):
                     want = sorted(set(x for x in l.split()[1:] if not x.startswith(("std::", "yorel::"))
                                       and x not in ("void", "bool", "char", "int", "float", "double", "short", "long", "signed", "unsigned", "class", "struct", "enum", "const", "volatile")))
